@@ -40,6 +40,8 @@ pub struct Parser {
     pub finals: usize,
     /// for final frame k: was request k a HEAD?
     head_requests: Vec<bool>,
+    /// "<conn>.<msg>" (the value of X-Id) -> that request was a HEAD
+    pub head_by_xid: std::collections::HashMap<String, bool>,
     /// treat 101 like any other status (direct-API cases, where no protocol switch happens)
     pub ignore_upgrade: bool,
     /// after a 101 the rest of the stream is opaque
@@ -112,6 +114,7 @@ impl Parser {
             buf: Vec::new(),
             finals: 0,
             head_requests,
+            head_by_xid: std::collections::HashMap::new(),
             ignore_upgrade: false,
             upgraded: false,
             opaque: Vec::new(),
@@ -216,7 +219,13 @@ impl Parser {
         let is_head = if f.interim() {
             false
         } else {
-            self.head_requests.get(self.finals).copied().unwrap_or(false)
+            // a response that names the request it answers (the harness's X-Id header) is judged by that request's
+            // method: a request answered through an unused raw writer elicits no response at all, so the position of
+            // a response in the stream does not always identify its request
+            match f.header("X-Id").and_then(|x| self.head_by_xid.get(x).copied()) {
+                Some(h) => h,
+                None => self.head_requests.get(self.finals).copied().unwrap_or(false),
+            }
         };
         let te = f.header("Transfer-Encoding").map(|s| s.to_ascii_lowercase());
         let cl = f.header("Content-Length").map(|s| s.to_string());
